@@ -248,7 +248,7 @@ func TestCheck(t *testing.T) {
 			}
 		}
 	}
-	c.Extra("exhaustive", fmt.Sprintf("%d link graphs of this shard (3 names x %d node kinds, 1..%d symbolic links) x %d query paths of <= %d components x %d read calls + mutating calls", graphs, len(ks), maxLinks, len(qs), depth, len(readCalls)))
+	c.Extra("exhaustive_space", fmt.Sprintf("%d link graphs of this shard (3 names x %d node kinds, 1..%d symbolic links) x %d query paths of <= %d components x %d read calls + mutating calls", graphs, len(ks), maxLinks, len(qs), depth, len(readCalls)))
 	c.SetExhaustive(true)
 
 	// 2. chains of length k around the kernel's limit of 40
